@@ -14,6 +14,16 @@ THEOREMS = {
     "C15_construction_pure": "full",
     "C15_pass_invariant": "full",
     "C15_construction_pure_ex": "example",
+    "C15_page_set": "full",
+    "C15_page_set_ex": "example",
+    "C15_pages_distinct_in_directory": "full",
+    "C15_one_page_per_recipe_refuted": "refuted",
+    "C15_page_scale": "full",
+    "C15_native_page_unscaled": "full",
+    "C15_page_scale_ex": "example",
+    "C15_error_iff": "full",
+    "C15_error_iff_ex": "example",
+    "C15_error_iff_hyp_ex": "example",
 }
 TRUSTED = [
     "Coq 8.16.1 kernel (coqc; vm_compute for the correspondence and the concrete examples only)",
